@@ -11,7 +11,7 @@
   Every theorem quantifies over EVERY `argsort` routine satisfying `IsArgsort` (a permutation of
   `range n` that sorts the keys; ties arbitrary) — numpy's unstable introsort included.
 -/
-import FcProofs.Lemmas.LexsortHyp
+import FcProofs.Lemmas.LexsortGeom
 namespace Fc
 open Fc.C02 Fc.C02.Spec
 
@@ -245,6 +245,35 @@ theorem C02_canonical_points_identical_partial {as1 as2 : List Int → List Nat}
     ∃ L1 L2, sortPointsItems as1 t1 m1 = some L1 ∧ sortPointsItems as2 t2 m2 = some L2 ∧
       L1.map (·.2) = L2.map (·.2) :=
   sortPoints_canonical_rows h1 h2 hy1 hy2 hn1 hn2 hdim hrel hdist
+
+/-- **C02_canonical_points, noise-free, from the geometric form of a relabelling (partial).**
+    `SameGeometry m₁ m₂ σ`: the points of the two meshes correspond one-to-one (`σ`), corresponding
+    points have identical coordinates and the same adjacent cell centres up to order — what permuting
+    points, cells within a type and the cell-type blocks produces.  Then, under `PointHypP` on both
+    sides and distinguishability, for any two `argsort` routines the sorted point sequence of `m₂` is
+    the `σ`-image of that of `m₁`, position by position: identical sorted coordinates, and the two
+    index maps differ exactly by the relabelling.
+    MISSING for the full statement: deriving `SameGeometry` from the index-level relation
+    `points₂ = points₁[ρ]`, `cells₂ = ρ⁻¹(cells₁)[cell permutation]` (pure index bookkeeping of the
+    kind proved in C08), and the noisy case (covered at key level by `C02_canonical_points_partial`). -/
+theorem C02_canonical_points_geom_partial {as1 as2 : List Int → List Nat} (h1 : IsArgsort as1)
+    (h2 : IsArgsort as2) {t1 t2 : MeshTol} {A B1 M1 B2 M2 : Nat} {m1 m2 : Mesh} {c1 c2 : List (List Int)}
+    {σ : PItem → PItem} (hy1 : PointHypP t1 A B1 M1 m1 c1) (hy2 : PointHypP t2 A B2 M2 m2 c2)
+    (hc : ∀ x, x ∈ c1 ↔ x ∈ c2) (geo : SameGeometry m1 m2 σ) (hn1 : m1.points ≠ []) (hn2 : m2.points ≠ [])
+    (hdist : ∀ a ∈ pitems m1, ∀ b ∈ pitems m1, kvec (KC A m1) m1.dim 0 a = kvec (KC A m1) m1.dim 0 b →
+      kvec (KM A c1 as1 t1 m1) m1.dim 0 a = kvec (KM A c1 as1 t1 m1) m1.dim 0 b → a = b) :
+    ∃ L1 L2, sortPointsItems as1 t1 m1 = some L1 ∧ sortPointsItems as2 t2 m2 = some L2 ∧
+      L1.map σ = L2 ∧ L1.map (·.2) = L2.map (·.2) := by
+  obtain ⟨L1, L2, e1, e2, hmap⟩ := sortPoints_canonical_geom h1 h2 hy1 hy2 hc geo hn1 hn2 hdist
+  refine ⟨L1, L2, e1, e2, hmap, ?_⟩
+  rw [← hmap, List.map_map]
+  apply List.map_congr_left
+  intro a ha
+  obtain ⟨L, eL, pL, _⟩ := sortPointsItems_spec h1 hy1 hn1
+  rw [e1] at eL
+  have : L1 = L := Option.some.inj eL
+  subst this
+  exact (geo.row a (pL.mem_iff.mp ha)).symm
 
 /-! ## cells -/
 
